@@ -1,7 +1,7 @@
 -- GENERATED from /repo by the extractors of /verif/harness on every run. Do not edit.
 namespace Jug.Generated.Stop
 /-- (exit check, hooks it registers on) as found in jug/hooks/exit_checks.py -/
-def exitHooks : List (String × List String) := [("exit_if_file_exists", []), ("exit_when_true", ["execute.task-executed1"]), ("exit_after_n_tasks", ["execute.task-executed1"]), ("exit_after_time", ["execute.task-executed1"])]
+def exitHooks : List (String × List String) := [("exit_if_file_exists", ["execute.task-pre-execute"]), ("exit_when_true", ["execute.task-executed1"]), ("exit_after_n_tasks", ["execute.task-executed1"]), ("exit_after_time", ["execute.task-executed1"])]
 def sigtermInstalledUnconditionally : Bool := true
 def sigtermRaisesSystemExit : Bool := true
 end Jug.Generated.Stop
